@@ -8,6 +8,17 @@ HERE = os.path.dirname(os.path.dirname(os.path.abspath(__file__)))
 TECH = "deterministic simulation with fault injection: "
 
 CHECKS = {
+    "C01": dict(
+        level="exploration",
+        text="Generated charts (<= 10 states, parallel/history/initial/final, internal/targetless/multi-target/eventless transitions, raise/send/cancel/assign/log/if, "
+             "early/late binding; null, lua and promela renderings of the same expression language) x histories of external events at seeded simulated times, interleaved "
+             "with the chart's own immediate and delayed sends on the simulated clock; every microstep (exits, transitions, content, logs, raised and sent events, entries, "
+             "configuration, event consumed) of the default engine is compared with an executable transcription of Recommendation Appendix D.",
+        ref="DESIGN.md 6/C01",
+        note="the program space is sampled by a generator, not enumerated; the reference model is trusted (transcription of Appendix D, no code shared with /repo); "
+             "external event order is taken from the implementation (its admissibility is C08/C09); what the simulator adds over plain random testing is the timed history "
+             "(delayed sends firing between harness events on simulated time) and exact replay.",
+        technique=TECH + "simulated timed histories on generated charts, step-by-step refinement against an executable W3C Appendix D reference model"),
     "C08": dict(
         level="exploration",
         text="Seeded search over interleavings of 1-4 producer threads calling Interpreter::receive with the stepping thread (blocking and non-blocking step), "
@@ -55,7 +66,6 @@ NOT_APPLICABLE = [
 
 # properties that will be claimed once their check exists; until then they are listed as not (yet) claimed
 PENDING = {
-    "C01": "not claimed yet: reference-model refinement check under construction (DESIGN.md 6/C01)",
     "C02": "not claimed yet: legality monitor under construction (DESIGN.md 6/C02)",
     "C03": "not claimed yet: engine differential under construction (DESIGN.md 6/C03)",
     "C04": "not claimed yet: generated-C host under construction (DESIGN.md 6/C04)",
